@@ -31,7 +31,7 @@ NewB == [i \in 1..(Cardinality(DOMAIN Reg) - 1) |-> [id |-> i, view |-> Reg[i].v
 VARIABLES rep, net, clog, votes, tviews, tcount
 vars == <<rep, net, clog, votes, tviews, tcount>>
 Env(i) == [n |-> N, q |-> Q, leaders |-> Leaders, rs |-> Ruleset, agg |-> FALSE, reg |-> Reg,
-           avail |-> UNION {rep[j].store : j \in Live \ {i}}, newb |-> NewB]
+           avail |-> UNION {rep[j].store : j \in Live \ {i}}, newb |-> NewB, starved |-> {}]
 \* what a replica sent, as network messages
 Msgs(i, out) ==
     UNION {LET m == out[k] IN
